@@ -46,6 +46,13 @@ pub open spec fn is_ascii(s: Seq<char>) -> bool { forall|i: int| 0 <= i < s.len(
 pub fn verif_ascii_bytes(s: &str) -> (r: &[u8]) ensures is_ascii(s@) ==> r@ == ascii_bytes(s@) { unimplemented!() }
 #[verifier::external_body]
 pub fn verif_bytes_lit(s: &'static str) -> (r: &'static [u8]) ensures r@ == ascii_bytes(s@) { unimplemented!() }
+// A-core-43: <[u8]>::trim_ascii is the slice without its leading and trailing ASCII whitespace
+pub open spec fn is_ascii_ws(b: u8) -> bool { b == 9 || b == 10 || b == 12 || b == 13 || b == 32 }
+pub assume_specification[ <[u8]>::trim_ascii ](s: &[u8]) -> (r: &[u8])
+    ensures
+        exists|i: int, j: int| 0 <= i <= j <= s@.len() && #[trigger] s@.subrange(i, j) == r@
+            && (forall|k: int| 0 <= k < i ==> is_ascii_ws(s@[k])) && (forall|k: int| j <= k < s@.len() ==> is_ascii_ws(s@[k])),
+        r@.len() > 0 ==> !is_ascii_ws(r@[0]) && !is_ascii_ws(r@.last());
 pub open spec fn names_of(s: Seq<CompressionEncoding>) -> Seq<u8> decreases s.len() {
     if s.len() == 0 { Seq::<u8>::empty() } else { names_of(s.drop_last()) + ascii_bytes(enc_name(s.last())) + seq![44u8] }
 }
